@@ -301,15 +301,17 @@ func (r *run) valuesEqual(xv, yv Value, xt, yt types.Type) *smt.Term {
 		case Scalar: // nil
 			return c.Eq(a.Tag, c.IntC(0))
 		case IfaceV:
-			return c.And(c.Eq(a.Tag, b.Tag), c.Eq(a.Ref, b.Ref))
+			// a nil interface is tag 0 whatever its payload term is
+			return c.And(c.Eq(a.Tag, b.Tag), c.Or(c.Eq(a.Tag, c.IntC(0)), c.Eq(a.Ref, b.Ref)))
 		}
 	case SliceV:
 		if b, ok := yv.(Scalar); ok { // nil
 			_ = b
 			return c.Eq(a.Base.Idxs[0], c.IntC(0))
 		}
-		if b, ok := yv.(SliceV); ok { // only nil comparison is legal Go; contracts may compare headers
-			return c.And(c.Eq(a.Base.Idxs[0], b.Base.Idxs[0]), c.Eq(a.Off, b.Off), c.Eq(a.Len, b.Len))
+		if b, ok := yv.(SliceV); ok { // only comparison with nil is legal Go; contracts may compare headers
+			isNil := c.Eq(a.Base.Idxs[0], c.IntC(0))
+			return c.And(c.Eq(a.Base.Idxs[0], b.Base.Idxs[0]), c.Or(isNil, c.And(c.Eq(a.Off, b.Off), c.Eq(a.Len, b.Len))))
 		}
 	case StructV:
 		if b, ok := yv.(StructV); ok && len(a.Fields) == len(b.Fields) {
@@ -730,6 +732,9 @@ func (r *run) callFunction(fr *frame, cur *node, fn *ssa.Function, args []Value,
 func (r *run) havocCall(fr *frame, cur *node, results *types.Tuple, what string) (Value, *node) {
 	after := fr.syntheticAfter(cur)
 	after.rootPV = nil
+	if r.written != nil {
+		r.written["*"] = true
+	}
 	// every heap read after this point is a fresh array: implemented by a havoc epoch on the node
 	epoch := r.C().Fresh("havoc", smt.Int)
 	base := cur
@@ -915,7 +920,7 @@ func (r *run) applyContractSig(fr *frame, cur *node, callee string, fc *contract
 	}
 	for k, cl := range fc.Requires {
 		g := en.evalBool(cl.Expr)
-		for j, cj := range smt.Conjuncts(g) {
+		for j, cj := range r.C().SplitGoal(g) {
 			name := fmt.Sprintf("%spre[%s.%d", fr.path, callee, k)
 			if j > 0 {
 				name += fmt.Sprintf(".c%d", j)
@@ -1014,7 +1019,7 @@ func (fr *frame) runInvariantLoop(l *loop, spec *contract.LoopSpec, iter []int) 
 		en := fr.loopEnv(l, at, pkg)
 		for k, cl := range spec.Invariants {
 			g := en.evalBool(cl.Expr)
-			for j, cj := range smt.Conjuncts(g) {
+			for j, cj := range r.C().SplitGoal(g) {
 				name := fmt.Sprintf("%sinv[%d.%d", fr.path, l.ordinal, k)
 				if j > 0 {
 					name += fmt.Sprintf(".c%d", j)
